@@ -59,19 +59,31 @@ class Translator:
         return r
 
 
-def generic_metric(dim):
-    """symmetric matrix of undetermined functions + jets carrying the same variables"""
+def generic_metric(dim, structure=None):
+    """symmetric matrix of undetermined functions + jets carrying the same variables.
+    structure 'null': the last diagonal entry vanishes identically (a null coordinate: g_ab != 0 where g^ab == 0 and
+    vice versa); 'offdiag': the diagonal entries depend on x0 only, the off-diagonal ones on every coordinate (a
+    coordinate that appears in no diagonal entry)."""
     coords = sp.symbols(f'x0:{dim}')
     fun = {}
     jets = oracle.arr((dim, dim))
     atom_map = {}
     for i in range(dim):
         for j in range(i, dim):
-            f = sp.Function(f'g{i}{j}')(*coords)
+            if structure == 'null' and i == j == dim - 1:
+                fun[i, j] = sp.Integer(0)
+                jets[i, j] = Jet(dim, 2, {k: tm.ZERO for k in jet_keys(dim, 2)})
+                continue
+            restricted = structure == 'offdiag' and i == j
+            f = sp.Function(f'g{i}{j}')(*(coords[:1] if restricted else coords))
             fun[i, j] = fun[j, i] = f
             J = Jet.fresh(f'g{i}{j}', dim, 2)
+            if restricted:
+                J = Jet(dim, 2, {k: (J.c[k] if all(a == 0 for a in k) else tm.ZERO) for k in jet_keys(dim, 2)})
             jets[i, j] = jets[j, i] = J
             for k in jet_keys(dim, 2):
+                if restricted and any(a != 0 for a in k):
+                    continue
                 if not k:
                     atom_map[f] = J.c[k]
                 else:
@@ -148,7 +160,7 @@ def run_case(args):
     t0 = time.time()
     cut = family.endswith('+gupcut')
     if family.startswith('generic'):
-        coords, g, jets, atom_map, pre = generic_metric(dim)
+        coords, g, jets, atom_map, pre = generic_metric(dim, structure=family.split(':')[1] if ':' in family else None)
     else:
         coords, g, jets, atom_map, pre = polynomial_metric(dim)
     want = oracle_values(jets, dim)
@@ -318,6 +330,13 @@ def cases(tier):
     for order in ORDERS:
         out.append((2, False, 'generic', order, tier))
         out.append((3, False, 'generic', order, tier))
+    # structured metrics: shortcuts keyed on vanishing components / on which coordinates an entry depends on
+    for order in ('Riemann_uddd-first', 'Riemann_down-first'):
+        out.append((2, False, 'generic:null', order, tier))
+        out.append((2, False, 'generic:offdiag', order, tier))
+        if tier == 'thorough':
+            out.append((3, False, 'generic:null', order, tier))
+            out.append((3, False, 'generic:offdiag', order, tier))
     out.append((2, True, 'generic', 'fresh-each', tier))
     out.append((2, True, 'generic', 'Riemann_uddd-first', tier))
     out.append((4, False, 'generic+gupcut', 'Riemann_uddd-first', tier))
